@@ -72,7 +72,13 @@ _iov("C05", "Every slice handed out points into live memory",
      "Kernel-checked ownership invariant on the structural model (every exposed owned slice is guarded by an anchor holding its chunk; "
      "derived liveness); correspondence of slice placement and live-chunk set with the real allocator through hook H1; containment oracle.",
      " PARTIAL BY NATURE: memory safety of the compiled unsafe code is sampled (registry + debug poisoning), not proved.")
-_iov("C10", "Arena memory is reclaimed: no leak after drop, bounded footprint in streaming", [], [], ["C10"], ["L"],
+_iov("C10", "Arena memory is reclaimed: no leak after drop, bounded footprint in streaming",
+     ["Woodpile.Props.C10.live_iff_held",
+      "Woodpile.Props.C10.drop_all_releases",
+      "Woodpile.Props.C10.dropAll_releases",
+      "Woodpile.Props.C10.consumed_anchors_released",
+      "Woodpile.Props.C10.front_anchor_counts"],
+     ["Woodpile.Props.C10"], ["C10"], ["L"],
      "Kernel-checked: dropping every object leaves no holder (derived liveness); correspondence of the live-chunk set after every operation; "
      "leak oracle on the process-wide counters at the end of every history.",
      " PARTIAL BY NATURE: leaks below the model (Arc/Box internals) are only visible to the counters.")
